@@ -81,6 +81,7 @@ class Tracer:
         self.pp_calls = []      # PropagatePositions calls, in order
         self.node_of = {}       # id(result object) -> index of the latest call that returned it
         self.own = {}           # id(tree) -> index of the call that created it
+        self.firstpos = {}      # id(tree) -> index of the first call returning it whose rule matched a token
         self.cont = {}          # id(obj) -> (first_token, last_token) true span of the rule(s) that returned obj
 
     @staticmethod
@@ -202,6 +203,8 @@ class Tracer:
                     tr.cont[id(res)] = true
                 if isinstance(res, Tree) and id(res) not in tr.own:
                     tr.own[id(res)] = idx
+                if isinstance(res, Tree) and true is not None and id(res) not in tr.firstpos:
+                    tr.firstpos[id(res)] = idx
             return res
 
         LC.feed, LC.advance_to, LC.from_text_slice = feed, advance_to, classmethod(from_text_slice)
@@ -427,7 +430,9 @@ def meta_violations(out):
         if id(node) in seen or id(node) not in tr.own:
             continue
         seen.add(id(node))
-        call = tr.pp_calls[tr.own[id(node)]]
+        # the rule application that created the node; a tree created empty (its rule matched no token) and then
+        # handed through by inlined ?rules takes the span of the first enclosing rule that matched a token
+        call = tr.pp_calls[tr.firstpos.get(id(node), tr.own[id(node)])]
         if call['filtered']:
             continue
         true = call['true']
@@ -657,7 +662,9 @@ start: stmt*
 ?stmt: NAME "=" expr ";"   -> assign
      | block
      | "<" block ">"
+     | "[" emp "]"
      | _call ";"           -> callstmt
+emp:
 block: "{" stmt* "}"
 _call: NAME "(" [args] ")"
 args: expr ("," expr)*
@@ -706,8 +713,10 @@ def gen_struct_tokens(rng, depth=0):
         r = rng.random()
         if d > 2 or r < 0.4:
             return [rng.choice(['a', 'v', 'foo']), '='] + expr(d) + [';']
-        if r < 0.55:
+        if r < 0.5:
             return block(d)
+        if r < 0.57:
+            return ['[', ']']
         if r < 0.7:
             return ['<'] + block(d) + ['>']
         args = []
@@ -729,10 +738,13 @@ def gen_struct_tokens(rng, depth=0):
 def gen_struct_input(rng, comments):
     toks = gen_struct_tokens(rng)
     gaps = ['', '', ' ', '\n', '\n\n', ' \n ', '\t', '\n  '] + comments * 2
-    s = rng.choice(['', '\n', ' ', '\n\n '])
+    s = rng.choice(['', '', '', '\n', ' ', '\n\n '])     # half of the inputs start at offset 0
+    tight_end = rng.random() < 0.5                          # ... and half end with their last token
     for i, t in enumerate(toks):
         s += t
         g = rng.choice(gaps)
+        if tight_end and i + 1 == len(toks):
+            g = ''
         if g.startswith('#'):
             g = ' ' + g + '\n'
         s += g
@@ -824,3 +836,21 @@ class Collector:
                                   False, 'model and implementation disagree; the property oracle holds on this case')
 
 
+
+
+# ============================================================================================ boundary family
+# Fixed structured grammars whose inputs start at absolute offset 0 with a filtered opening token and end with a
+# filtered closing token at the very end of the buffer: inlined ?rules wrapping a sub-tree in filtered tokens,
+# bracketed lists, nested wrappers, an empty child handed through an inlined rule.  Run on every check.
+BOUNDARY = [
+    ('?start: sum\n?sum: product | sum "+" product -> add\n?product: atom | product "*" atom -> mul\n'
+     '?atom: NUMBER -> num | "(" sum ")"\nNUMBER: /[0-9]+/\n%ignore /[ \\n]+/\n',
+     ['(1+2)*3', '(1)', '((1))', '(1+2)', '3*(1+2)', '((1+2)*3)', '(1\n+2)*\n(3)', '((1)*(2))+(3)', '( 1 )', '(1)\n']),
+    ('?start: value\n?value: list | NAME -> name | "<" value ">"\nlist: "[" [value ("," value)*] "]"\n'
+     'NAME: /[a-z]+/\n%ignore /[ \\n]+/\n',
+     ['[a,[b],[]]', '<[a]>', '[]', '<<a>>', '<[a,b]>', '[<a>,<[b]>]', '<\n[a]\n>', '[[[]]]']),
+    ('start: item+\n?item: "[" emp "]" | "{" item "}" | "(" emp NAME ")" -> pair | NAME -> name\nemp:\n'
+     'NAME: /[a-z]+/\n%ignore /[ \\n]+/\n',
+     ['[]', '{[]}', '[]a', 'a[]', '{{a}}', '{[]}{a}', '(a)', '{(a)}[]', '[\n]', '{a}']),
+]
+BOUNDARY_WINDOWS = [None, ('', ''), ('', ' z'), ('x\n', ''), ('ab', '\n\n'), ('\n(', ')')]
